@@ -441,6 +441,11 @@ def _desugar_for_each(caller, bi, by_path, collect_into_vec=False, try_mode=Fals
                        "term": {"k": "call", "func": {"k": "const", "ty": "fn", "fn": "std::ops::FromResidual::from_residual", "fnargs": fr}, "args": [{"k": "move", "pl": {"l": l_rs, "p": []}}],
                                 "dest": copy.deepcopy(dest), "target": target, "fnsp": sp, "sp": sp, "callee": "std::ops::FromResidual::from_residual", "callee_args": fr, "targs": [],
                                 "trait": "std::ops::FromResidual", "exp": True}})
+        if fold:
+            # nb + 8: the closure returned Continue(acc'): the accumulator takes that value and the next element is fetched
+            blocks.append({"stmts": [{"k": "assign", "pl": {"l": l_acc, "p": []}, "rv": {"k": "use", "ops": [{"k": "move", "pl": {"l": l_cf, "p": [["downcast", 0, "Continue"], ["field", 0, "0"]]}}]},
+                                      "sp": sp, "inl": "fold"}],
+                           "term": {"k": "goto", "target": H, "sp": sp}})
     if isinstance(collect_into_vec, dict):
         push = "std::vec::Vec::<?>::push"
         l_rb = newl("&mut std::vec::Vec<?>")
